@@ -2219,13 +2219,104 @@ skip_future_versions:
     return rc;
 }
 
+#if ALG_CMAC
+#define TPMCMACSTATE_MAGIC 0x5a3c91e7
+#define TPMCMACSTATE_VERSION 2
+
+/* The state of a CMAC sequence; the methods of the SMAC_STATE around it are
+ * function pointers and are set again when the state is unmarshalled.
+ */
+static UINT16
+tpmCmacState_Marshal(tpmCmacState_t *data, BYTE **buffer, INT32 *size)
+{
+    UINT16 written;
+    UINT16 bcount = (UINT16)data->bcount;
+    BLOCK_SKIP_INIT;
+
+    written = NV_HEADER_Marshal(buffer, size,
+                                TPMCMACSTATE_VERSION,
+                                TPMCMACSTATE_MAGIC, 1);
+    written += TPM_ALG_ID_Marshal(&data->symAlg, buffer, size);
+    written += UINT16_Marshal(&data->keySizeBits, buffer, size);
+    written += UINT16_Marshal(&bcount, buffer, size);
+    written += TPM2B_IV_Marshal(&data->iv, buffer, size);
+    written += TPM2B_SYM_KEY_Marshal(&data->symKey, buffer, size);
+
+    written += BLOCK_SKIP_WRITE_PUSH(TRUE, buffer, size);
+    /* future versions append below this line */
+
+    BLOCK_SKIP_WRITE_POP(size);
+
+    BLOCK_SKIP_WRITE_CHECK;
+
+    return written;
+}
+
+static TPM_RC
+tpmCmacState_Unmarshal(tpmCmacState_t *data, BYTE **buffer, INT32 *size)
+{
+    TPM_RC rc = TPM_RC_SUCCESS;
+    NV_HEADER hdr;
+    UINT16 bcount = 0;
+
+    if (rc == TPM_RC_SUCCESS) {
+        rc = NV_HEADER_Unmarshal(&hdr, buffer, size,
+                                 TPMCMACSTATE_VERSION, TPMCMACSTATE_MAGIC);
+    }
+    if (rc == TPM_RC_SUCCESS) {
+        rc = TPM_ALG_ID_Unmarshal(&data->symAlg, buffer, size);
+    }
+    if (rc == TPM_RC_SUCCESS) {
+        rc = UINT16_Unmarshal(&data->keySizeBits, buffer, size);
+    }
+    if (rc == TPM_RC_SUCCESS) {
+        rc = UINT16_Unmarshal(&bcount, buffer, size);
+    }
+    if (rc == TPM_RC_SUCCESS) {
+        rc = TPM2B_IV_Unmarshal(&data->iv, buffer, size);
+    }
+    if (rc == TPM_RC_SUCCESS) {
+        rc = TPM2B_SYM_KEY_Unmarshal(&data->symKey, buffer, size);
+    }
+    if (rc == TPM_RC_SUCCESS) {
+        /* the values must fit each other: CryptCmacData()/CryptCmacEnd()
+           index the IV buffer with bcount and use the key with this size */
+        INT16 blockSize = CryptGetSymmetricBlockSize(data->symAlg,
+                                                     data->keySizeBits);
+        if (blockSize <= 0 ||
+            data->iv.t.size != (UINT16)blockSize ||
+            data->symKey.t.size != BITS_TO_BYTES(data->keySizeBits) ||
+            bcount > data->iv.t.size) {
+            TPMLIB_LogTPM2Error("tpmCmacState: inconsistent values: symAlg 0x%x, "
+                                "keySizeBits %u, iv size %u, key size %u, bcount %u\n",
+                                data->symAlg, data->keySizeBits,
+                                data->iv.t.size, data->symKey.t.size, bcount);
+            rc = TPM_RC_BAD_PARAMETER;
+        }
+        data->bcount = (INT16)bcount;
+    }
+
+    /* version 2 starts having indicator for next versions that we can skip;
+       this allows us to downgrade state */
+    if (rc == TPM_RC_SUCCESS && hdr.version >= 2) {
+        BLOCK_SKIP_READ(skip_future_versions, FALSE, buffer, size,
+                        "tpmCmacState", "version 3 or later");
+        /* future versions nest-append here */
+    }
+
+skip_future_versions:
+    return rc;
+}
+#endif
+
 #define HASH_STATE_MAGIC 0x562878a2
-#define HASH_STATE_VERSION 2
+#define HASH_STATE_VERSION 3
 
 static UINT16
 HASH_STATE_Marshal(HASH_STATE *data, BYTE **buffer, INT32 *size)
 {
     UINT16 written;
+    BOOL has_smac;
     BLOCK_SKIP_INIT;
 
     written = NV_HEADER_Marshal(buffer, size,
@@ -2238,8 +2329,24 @@ HASH_STATE_Marshal(HASH_STATE *data, BYTE **buffer, INT32 *size)
     written += ANY_HASH_STATE_Marshal(&data->state, buffer, size, data->hashAlg);
 
     written += BLOCK_SKIP_WRITE_PUSH(TRUE, buffer, size);
+    /* version 3: the state of a symmetric MAC (TPM2_MAC_Start with a
+       symmetric key); ANY_HASH_STATE only carries hash states */
+#if ALG_CMAC
+    has_smac = (data->type == HASH_STATE_SMAC);
+#else
+    has_smac = FALSE;
+#endif
+    written += BOOL_Marshal(&has_smac, buffer, size);
+#if ALG_CMAC
+    if (has_smac)
+        written += tpmCmacState_Marshal(&data->state.smac.state.cmac,
+                                        buffer, size);
+#endif
+
+    written += BLOCK_SKIP_WRITE_PUSH(TRUE, buffer, size);
     /* future versions append below this line */
 
+    BLOCK_SKIP_WRITE_POP(size);
     BLOCK_SKIP_WRITE_POP(size);
 
     BLOCK_SKIP_WRITE_CHECK;
@@ -2252,6 +2359,7 @@ HASH_STATE_Unmarshal(HASH_STATE *data, BYTE **buffer, INT32 *size)
 {
     UINT16 rc = TPM_RC_SUCCESS;
     NV_HEADER hdr;
+    BOOL has_smac = FALSE;
 
     if (rc == TPM_RC_SUCCESS) {
         rc = NV_HEADER_Unmarshal(&hdr, buffer, size,
@@ -2275,16 +2383,59 @@ HASH_STATE_Unmarshal(HASH_STATE *data, BYTE **buffer, INT32 *size)
     if (rc == TPM_RC_SUCCESS) {
         rc = ANY_HASH_STATE_Unmarshal(&data->state, buffer, size, data->hashAlg);
     }
+#if ALG_CMAC
+    if (rc == TPM_RC_SUCCESS && data->type == HASH_STATE_SMAC) {
+        /* function pointers: never taken from the blob or from what the
+           structure held before */
+        data->state.smac.smacMethods.data = NULL;
+        data->state.smac.smacMethods.end = NULL;
+    }
+#endif
 
     /* version 2 starts having indicator for next versions that we can skip;
        this allows us to downgrade state */
     if (rc == TPM_RC_SUCCESS && hdr.version >= 2) {
-        BLOCK_SKIP_READ(skip_future_versions, FALSE, buffer, size,
+        BLOCK_SKIP_READ(skip_future_versions, hdr.version >= 3, buffer, size,
                         "HASH_STATE", "version 3 or later");
+        if (rc == TPM_RC_SUCCESS) {
+            rc = BOOL_Unmarshal(&has_smac, buffer, size);
+        }
+#if ALG_CMAC
+        if (rc == TPM_RC_SUCCESS && has_smac) {
+            rc = tpmCmacState_Unmarshal(&data->state.smac.state.cmac,
+                                        buffer, size);
+            if (rc == TPM_RC_SUCCESS && data->type == HASH_STATE_SMAC) {
+                data->state.smac.smacMethods.data = CryptCmacData;
+                data->state.smac.smacMethods.end = CryptCmacEnd;
+            }
+        }
+#else
+        if (rc == TPM_RC_SUCCESS && has_smac) {
+            TPMLIB_LogTPM2Error("HASH_STATE: state of a symmetric MAC but "
+                                "no symmetric MAC is implemented (version %u)\n",
+                                hdr.version);
+            rc = TPM_RC_BAD_PARAMETER;
+        }
+#endif
+        if (rc == TPM_RC_SUCCESS) {
+            BLOCK_SKIP_READ(skip_future_versions, FALSE, buffer, size,
+                            "HASH_STATE", "version 4 or later");
+        }
         /* future versions nest-append here */
     }
 
 skip_future_versions:
+#if ALG_CMAC
+    if (rc == TPM_RC_SUCCESS && data->type == HASH_STATE_SMAC &&
+        data->state.smac.smacMethods.data == NULL) {
+        /* written by a version that did not carry the state of a symmetric
+           MAC: the sequence cannot be continued; using it would call
+           through a NULL pointer */
+        TPMLIB_LogTPM2Error("HASH_STATE: the state of a symmetric MAC sequence "
+                            "is missing (version %u)\n", hdr.version);
+        rc = TPM_RC_BAD_PARAMETER;
+    }
+#endif
     return rc;
 }
 
